@@ -154,7 +154,7 @@ def classify_construct(e, tree, where):
             if type(e2) is type(e):
                 culprit = m
                 break
-    return ("violation", f"construct-raises:{name}:{G.nodekey(culprit)}", f"constructing {G.render_expr(culprit)} raises {name}: {msg[:200]}")
+    return ("violation", f"construct-raises:{name}:{G.nodekey(culprit)}", f"constructing {G.render_expr(culprit)} raises {name}: {msg[:200]}; in {G.describe(tree)}")
 
 
 # ------------------------------------------------------------------------------------------
@@ -208,7 +208,7 @@ def check_api(tree, res):
                 res["violations"].append(
                     (
                         f"support:{G.nodekey(n)}:raises-{type(e).__name__}",
-                        f"supportInterval({G.render_expr(n)}) raises {type(e).__name__}: {e}",
+                        f"supportInterval({G.render_expr(n)}) raises {type(e).__name__}: {e}; in {G.describe(tree)}",
                         {"route": "api"},
                     )
                 )
@@ -274,7 +274,7 @@ def judge_api(tree, B, objs, judged, supports, leaf_items, status, subs, exc, re
         elif n is tree and status == "ok":  # non-lazy root (e.g. a dict): the value is the object
             v = G.to_plain(o)
             sampled.append((n, o, v))
-    desc_in = lambda: "leaves " + ", ".join(f"L{i}={vals[('L', i)]!r}" for i, _ in leaf_items)
+    desc_in = lambda: "in " + G.describe(tree) + "; sampled " + ", ".join(f"L{i}={vals[('L', i)]!r}" for i, _ in leaf_items)
 
     # nodes in post order: every sampled node must equal the Python operation on its operands
     first_py_exc = None
@@ -749,7 +749,10 @@ def check_self(payload, res):
                     if override or sub:
                         res["self_values_checked_overridden"] += 1
             chain = G.to_plain(obj.chain)
-            if G.same((G.to_plain(obj.b0), a), chain):
+            b0 = G.to_plain(obj.b0)
+            if "UNSAMPLED" in repr(b0):
+                continue  # b0 itself already reported (unsampled dict values)
+            if G.same((b0, a), chain):
                 sig = "self-default:chained-default"
                 if sig not in seen:
                     seen.add(sig)
@@ -1121,10 +1124,9 @@ def replay(ctx, case):
     else:
         # self / delayed programs are replayed from their text
         replay_text(case, res)
-    want = case.get("route")
     for sig, desc, c in res["violations"]:
         c.update({k: v for k, v in case.items() if k not in c})
-        ctx.violation(sig, desc, c)
+        ctx.violation(refine(sig, desc), desc, c)
 
 
 def replay_text(case, res):
